@@ -116,7 +116,7 @@ def run(ctx):
     ctx.extra["bounds"] = {"closed_form": {"MaxN": b["MaxN"], "Xs": [0, 1, 2, 5], "Ws": [1, 2, 3],
                                            "families": ["normal", "exponential", "poisson", "geometric", "categorical", "vector-normal (2-d, grid 3x3)"],
                                            "modes": ["weighted", "unweighted", "batch"], "bounds": "sigmaMin 1e-3 / 1.5, lambdaMax 100 / 0.5"},
-                           "em": {"trajectories": b["runs"], "scenarios": 10, "epsilon": [1e-8, 1e-4, 1e-2], "maxSteps": [-1, 1, 3, 8]}}
+                           "em": {"trajectories": b["runs"], "scenarios": 13, "epsilon": [1e-8, 1e-4, 1e-2], "maxSteps": [-1, 1, 3, 8]}}
     ctx.extra["estimator_runs"] = summ["estimator_runs"]
     ctx.assumptions += ["numeric estimators (NumericEstimator, negative binomial) and logistic regression are not covered by the closed-form contract",
                         "the recomputed likelihood uses the distributions' own LogPdf (decided by C14/C15)"]
